@@ -67,7 +67,7 @@ Qed.
 Lemma zip_members_rel infos : forall names enums m,
   In m (zip_members infos names enums) -> is_col_member m = false.
 Proof.
-  induction infos as [|r ri IH]; intros [|n rn] [|e re] m; cbn [zip_members]; try (intros []).
+  induction infos as [|r ri IH]; intros [|n rn] [|e re] m; cbn [zip_members In]; try (intro F; contradiction).
   intros [<-|H]; [reflexivity | eapply IH, H].
 Qed.
 
@@ -236,7 +236,9 @@ Qed.
 
 Lemma next_fk_In target rc nt ncs : next_fk target rc = Some (nt, ncs) -> exists cols, In (cols, nt, ncs) (fks_of target).
 Proof.
-  unfold next_fk. destruct (find _ (fks_of target)) as [[[cols rt] rcs]|] eqn:F; [|discriminate].
+  unfold next_fk.
+  match goal with |- context [find ?p (fks_of target)] => destruct (find p (fks_of target)) as [[[cols rt] rcs]|] eqn:F end;
+    [|discriminate].
   intro H. injection H as <- <-. apply find_some in F. exists cols. apply F.
 Qed.
 
@@ -293,7 +295,7 @@ Qed.
 Lemma zip_members_entity infos : forall names enums m,
   In m (zip_members infos names enums) -> exists r, In r infos /\ member_entity m = [ri_entity r].
 Proof.
-  induction infos as [|r ri IH]; intros [|n rn] [|e re] m; cbn [zip_members]; try (intros []).
+  induction infos as [|r ri IH]; intros [|n rn] [|e re] m; cbn [zip_members In]; try (intro F; contradiction).
   intros [<-|H].
   - exists r. split; [now left | reflexivity].
   - destruct (IH _ _ _ H) as [r' [Hr E]]. exists r'. split; [now right | exact E].
